@@ -80,6 +80,29 @@ func (cl *Client) ASExchange(realm string, ASReq messages.ASReq, referral int) (
 	return ASRep, nil
 }
 
+// preAuthETypeFromConfig returns the encryption type to pre-authenticate with when none has been negotiated with the KDC
+// yet: the first of the configured ticket encryption types (those the AS_REQ asks for) the credentials have a key for.
+// preferred_preauth_types lists pre-authentication data types, not encryption types; its first entry is the last resort only
+// because that is what earlier versions used.
+func (cl *Client) preAuthETypeFromConfig() int32 {
+	for _, id := range cl.Config.LibDefaults.DefaultTktEnctypeIDs {
+		et, err := crypto.GetEtype(id)
+		if err != nil {
+			continue
+		}
+		if cl.Credentials.HasPassword() {
+			return id
+		}
+		if _, _, err := cl.Key(et, 0, nil); err == nil {
+			return id
+		}
+	}
+	if len(cl.Config.LibDefaults.PreferredPreauthTypes) > 0 {
+		return int32(cl.Config.LibDefaults.PreferredPreauthTypes[0])
+	}
+	return 0
+}
+
 // setPAData adds pre-authentication data to the AS_REQ.
 func setPAData(cl *Client, krberr *messages.KRBError, ASReq *messages.ASReq) error {
 	if !cl.settings.DisablePAFXFAST() {
@@ -97,7 +120,7 @@ func setPAData(cl *Client, krberr *messages.KRBError, ASReq *messages.ASReq) err
 			// There is no KRB Error that tells us the etype to use
 			etn := cl.settings.negotiatedPreAuthEType() // Use the etype that may have previously been negotiated
 			if etn == 0 {
-				etn = int32(cl.Config.LibDefaults.PreferredPreauthTypes[0]) // Resort to config
+				etn = cl.preAuthETypeFromConfig() // Resort to config
 			}
 			et, err = crypto.GetEtype(etn)
 			if err != nil {
